@@ -149,61 +149,22 @@ theorem WInv.mutate {b : Nat} {w : World} (h : WInv b w) (id : Id) (f : Kids →
 
 /-! ### `$addFields` -/
 
-theorem deepTarget_win {b : Nat} (cur : HV) (path : List String) (v : HV) (n : Nat) :
-    ∀ (id : Id) (key : String) (val : HV) (n' : Nat), b ≤ n → cur.all (inR b n) = true →
-      v.all (inR b n) = true → deepTarget cur path v n = some (id, key, val, n') →
-      n ≤ n' ∧ inR b n' id = true ∧ val.all (inR b n') = true := by
-  fun_induction deepTarget cur path v n with
-  | case1 => intro id key val n' _ _ _ h; cases h
-  | case2 i ks k v n =>
-    intro id key val n' _ hc hv h
-    cases h
-    simp only [HV.all, Bool.and_eq_true] at hc
-    exact ⟨Nat.le_refl _, hc.1, hv⟩
-  | case3 i kids k r v n hr i2 ks2 hk ih =>
-    intro id key val n' hb hc hv h
-    simp only [HV.all, Bool.and_eq_true] at hc
-    exact ih id key val n' hb (allKids_kget k kids _ hc.2 hk) hv h
-  | case4 i kids k r v n hr hno =>
-    intro id key val n' hb hc hv h
-    cases h
-    simp only [HV.all, Bool.and_eq_true] at hc
-    have hn := nestNew_win (b := b) r v n hb hv
-    exact ⟨hn.1, inR_mono (Nat.le_refl _) hn.1 _ hc.1, hn.2⟩
-  | case5 => intro id key val n' _ _ _ h; cases h
+theorem dr_addFieldsNested : Dr.addFieldsNested = .shallow := rfl
 
+/-- writing one field of one document under construction: a purely local rebuild of that
+    document — nothing else in the world changes -/
 theorem setOut_step {b : Nat} (w : World) (j : Nat) (path : List String) (v : HV) (w' : World)
-    (h : WInv b w) (hv : v.all (inR b w.nextTmp) = true) (hs : setOut w j path v = .ok w') :
+    (h : WInv b w) (hv : v.all (inR b w.nextTmp) = true) (hs : setOut Dr w j path v = .ok w') :
     Step b w w' := by
-  unfold setOut at hs
+  simp only [setOut, dr_addFieldsNested] at hs
   split at hs
-  · next top k ht =>
+  · next top ht =>
     cases hs
     have htop := allL_getElem? _ _ _ h.out ht
-    exact ⟨⟨h.hb, h.work, allL_set _ _ _ h.out (all_setLocal k top v htop hv), h.colls, h.pipe, h.stack⟩,
-      ⟨rfl, rfl, rfl, rfl, rfl⟩, Nat.le_refl _⟩
-  · next top k r hne ht =>
-    have htop := allL_getElem? _ _ _ h.out ht
-    split at hs
-    · next i ks hg =>
-      have hsub := all_get k top _ htop hg
-      split at hs
-      · next id key val n' hd =>
-        have hdt := deepTarget_win (b := b) _ r v w.nextTmp id key val n' h.hb hsub hv hd
-        split at hs
-        · cases hs
-        · cases hs
-          have hb1 := h.bump n' hdt.1
-          have hm := hb1.inv.mutate id (kset key val) hdt.2.1
-            (fun ks hk => allKids_kset key val hdt.2.2 ks hk)
-          exact hb1.trans hm
-      · cases hs; exact Step.refl h
-    · cases hs
-      have hn := nestNew_win (b := b) r v w.nextTmp h.hb hv
-      have hb1 := h.bump (nestNew r v w.nextTmp).2 hn.1
-      refine ⟨⟨hb1.inv.hb, hb1.inv.work, ?_, h.colls, h.pipe, h.stack⟩, ⟨rfl, rfl, rfl, rfl, rfl⟩, hn.1⟩
-      exact allL_set _ _ _ hb1.inv.out (all_setLocal k top _
-        (all_mono (fun i hi => inR_mono (Nat.le_refl _) hn.1 i hi) _ htop) hn.2)
+    have hp := setPathCopy_win (b := b) .shallow v path top w.nextTmp h.hb htop hv
+    have hb1 := h.bump (setPathCopy .shallow v path top w.nextTmp).2 hp.1
+    exact ⟨⟨hb1.inv.hb, hb1.inv.work, allL_set _ _ _ hb1.inv.out hp.2, h.colls, h.pipe, h.stack⟩,
+      ⟨rfl, rfl, rfl, rfl, rfl⟩, hp.1⟩
   · cases hs; exact Step.refl h
 
 theorem addField_step {b : Nat} (path : List String) (e : AExpr) :
